@@ -266,6 +266,8 @@ class CoreEnforcer:
 
         self.adapter.load_filtered_policy(self.model, filter)
 
+        self.model.sort_policies_by_subject_hierarchy()
+
         self.model.sort_policies_by_priority()
 
         self.init_rm_map()
@@ -279,6 +281,11 @@ class CoreEnforcer:
             raise ValueError("filtered policies are not supported by this adapter")
 
         self.adapter.load_filtered_policy(self.model, filter)
+
+        self.model.sort_policies_by_subject_hierarchy()
+
+        self.model.sort_policies_by_priority()
+
         self.model.print_policy()
         if self.auto_build_role_links:
             self.build_role_links()
